@@ -10,7 +10,7 @@ RULE = ("histories of 2..4 phases; in a phase 2..5 items run concurrently (start
         "nodes), half of them consuming one or two results of earlier phases — so that several runs need the same tasks, which "
         "after a discard must be recomputed by one of them and awaited by the others —, scans of earlier results, discards; local "
         "executor and bigmachine testsystem, GOMAXPROCS in {1,2,4,16}; every run is judged like C01 on the results' first values; "
-        "in addition a race-detector build of the harness (go build -race) runs a sample of the cases (quick: 40, thorough: 600): "
+        "in addition a race-detector build of the harness (go build -race) runs a sample of the cases (quick: 24, thorough: 600): "
         "any `DATA RACE` report is a violation; non-trivial = two runs of one phase consume the same result")
 TRUST = ["the Go race detector reports the races that occur in the executions it observes (no false positives)"]
 ASSUMPTIONS = ["goroutine schedules are sampled (GOMAXPROCS, start together), not enumerated; the interleavings of the runner "
@@ -77,7 +77,7 @@ def custom(chk, wc, tier, seed):
         chk.violation("tie-T1-broken", {"correspondence": "race-detector build of the harness", "error": str(e)[-2000:]}, found_input=False)
         return
     r = vlib.SplitMix(seed ^ 0xC19).fork()
-    cases = list(gen(r, tier))[: (40 if tier == "quick" else 600)]
+    cases = list(gen(r, tier))[: (24 if tier == "quick" else 600)]
     chunks = [cases[i::4] for i in range(4)]
     from concurrent.futures import ThreadPoolExecutor
 
